@@ -13,7 +13,11 @@ func (f *Field[T]) ToBits(a *Element[T]) []frontend.Variable {
 	f.enforceWidthConditional(a)
 	ba, aConst := f.constantValue(a)
 	if aConst {
-		res := make([]frontend.Variable, f.fParams.BitsPerLimb()*f.fParams.NbLimbs())
+		// an element with constant limbs may be unreduced (e.g. x - x folds to
+		// the subtraction padding): as in the general case, return enough bits
+		// for the limbs and their overflow
+		nbLimbs := max(f.fParams.NbLimbs(), uint(len(a.Limbs)))
+		res := make([]frontend.Variable, f.fParams.BitsPerLimb()*nbLimbs+a.overflow)
 		for i := range res {
 			res[i] = ba.Bit(i)
 		}
